@@ -332,7 +332,13 @@ class EnvHandle(object):
             folds = {k: [to_time(a, grid_type), to_time(b, grid_type)] for k, (a, b) in spec["folds"].items()}
         warm = timedelta(seconds=spec["warmup_s"]) if spec.get("warmup_s") is not None else None
         grid_list = [grid[i] for i in order]
-        self.transmitter = Transmitter(grid_list, folds, bool(spec.get("markov", False)), warm)
+        later = spec.get("grid_added_later")
+        if later:
+            # part of the decision grid is registered after construction, through the public add_timesteps()
+            self.transmitter = Transmitter(grid_list[:later], folds, bool(spec.get("markov", False)), warm)
+            self.transmitter.add_timesteps(grid_list[later:])
+        else:
+            self.transmitter = Transmitter(grid_list, folds, bool(spec.get("markov", False)), warm)
         if spec.get("grid_shared_with"):
             # the caller builds another transmitter from the very same list of timesteps and adds timesteps to *that* one
             other = Transmitter(grid_list)
@@ -507,7 +513,7 @@ class EnvHandle(object):
         try:
             return float(self.env.broker.net_liquidation_value(raise_if_broke=False))
         except Exception as e:
-            return "ERR:" + type(e).__name__
+            return "ERR:" + core.exc_name(e)
 
     def chains(self):
         """What each futures chain of the action space resolves to right now."""
@@ -519,16 +525,16 @@ class EnvHandle(object):
             try:
                 info["lead"] = c.lead_contract().symbol
             except Exception as e:
-                info["lead"] = "ERR:" + type(e).__name__
+                info["lead"] = "ERR:" + core.exc_name(e)
             try:
                 info["lead_now"] = c.lead_contract(self.env.now()).symbol
             except Exception as e:
-                info["lead_now"] = "ERR:" + type(e).__name__
+                info["lead_now"] = "ERR:" + core.exc_name(e)
             try:
                 b = self.env.exchange[c]
                 info["book"] = (b.bid_price, b.ask_price)
             except Exception as e:
-                info["book"] = "ERR:" + type(e).__name__
+                info["book"] = "ERR:" + core.exc_name(e)
             out[s["name"]] = info
         return out
 
@@ -548,7 +554,7 @@ class EnvHandle(object):
         try:
             return ["value", float(self.env.broker.net_liquidation_value())]
         except Exception as e:
-            return ["raised", type(e).__name__]
+            return ["raised", core.exc_name(e)]
 
     def resolve_action(self, a):
         n = len(self.space_contracts)
@@ -636,6 +642,8 @@ class EpiSim(object):
     def build(self):
         for tag, spec in enumerate(self.sc["envs"]):
             self.handles.append(EnvHandle(tag, spec, self.sink))
+            if spec.get("grid_added_later"):
+                self.fault("timesteps_added_after_construction")
 
     def wrap_rebalance(self, h):
         broker = h.env.broker
@@ -677,7 +685,7 @@ class EpiSim(object):
             obs = (call or h.env.reset)(**kwargs)
         except Exception as e:
             site, chain = _raise_site(e.__traceback__)
-            rec.update({"exc": type(e).__name__, "msg": str(e)[:300], "site": site})
+            rec.update({"exc": core.exc_name(e), "msg": str(e)[:300], "site": site})
             rec["end_seq"] = self.sink.next_seq()
             h.episodes.append({"reset": rec, "steps": [], "failed": True, "ended": True, "gen": h.gen})
             if reraise:
@@ -715,7 +723,7 @@ class EpiSim(object):
             obs, reward, done, info = (call or h.env.step)(action)
         except Exception as e:
             site, chain = _raise_site(e.__traceback__)
-            rec.update({"exc": type(e).__name__, "msg": str(e)[:300], "site": site, "chain": chain})
+            rec.update({"exc": core.exc_name(e), "msg": str(e)[:300], "site": site, "chain": chain})
             obs = reward = done = info = None
             raised = e
         hq, hm = h.holdings()
@@ -795,8 +803,8 @@ class EpiSim(object):
         except Exception as e:
             # already recorded by the reset / step record it came from; anything else is the driver's own failure
             last = self.api[-1] if self.api else None
-            if last is None or last.get("exc") != type(e).__name__:
-                self.sink.records.append({"seq": self.sink.next_seq(), "kind": "driver_exc", "env": h.tag, "exc": type(e).__name__,
+            if last is None or last.get("exc") != core.exc_name(e):
+                self.sink.records.append({"seq": self.sink.next_seq(), "kind": "driver_exc", "env": h.tag, "exc": core.exc_name(e),
                                           "msg": str(e)[:300], "site": _raise_site(e.__traceback__)[0]})
         finally:
             del h.env.reset
@@ -847,7 +855,7 @@ class EpiSim(object):
                 try:
                     h.env.notify(ev)
                 except Exception as e:
-                    rec["exc"] = type(e).__name__
+                    rec["exc"] = core.exc_name(e)
                 rec["end_seq"] = self.sink.next_seq()
                 self.fault("quote_pushed_between_steps_with_the_last_timestamp")
             elif name == "bad_env":
@@ -861,7 +869,7 @@ class EpiSim(object):
                 try:
                     TradingEnv(action_space=h.space, transmitter=h.transmitter, latency=mingap * op.get("factor", 1.0))
                 except Exception as e:
-                    rec["exc"] = type(e).__name__
+                    rec["exc"] = core.exc_name(e)
                 self.sink.records.append(rec)
                 self.fault("environment_construction_refused")
             elif name == "new_env":
